@@ -93,6 +93,7 @@ def plan(tier, seed):
     for gi in range(len(graphs(5))):
         scs.append(dict(kind='typing', n=5, g=gi, t0=None))
     scs += [dict(kind='large', case=i) for i in range(3)]
+    scs += [dict(kind='history', h=h) for h in range(3)]
     return dict(scenarios=scs, exhaustive=True, chunk=2,
                 menus=dict(graphs={n: len(graphs(n)) for n in range(2, nmax + 1)}, presentations=['canonical', 'all reversed', 'every single-edge reversal', 'list reversed', 'list rotated', 'duplicate bond (either direction)'],
                            type_alphabet=TYPES, assignments='all 6^n for n<=4; for n=5 all 3^5 assignments of {H_, C_3, O_3} + %d covering assignments of the 6-type alphabet' % (len(cover5()) - 243), exclusion='every subset of atoms for n<=4; {none, first 4 atoms, all} for n=5',
@@ -139,7 +140,7 @@ def check_coeff(text, seq, expected_numeric, extra=''):
     return None
 
 
-def run_typing(n, edges, types, exclude, pres, perm, sc, out):
+def run_typing(n, edges, types, exclude, pres, perm, sc, out, order=(0, 1, 2)):
     """one execution of the three assign_* functions on one presentation; returns list of (clause, msg)"""
     inv = perm                                   # new index of old atom a is perm[a]
     e2 = [(inv[a], inv[b]) for a, b in edges]
@@ -167,13 +168,16 @@ def run_typing(n, edges, types, exclude, pres, perm, sc, out):
     exp_d = [(d, seq, m, p) for (d, seq, m), p in zip(dinfo, dpar) if p is not None]
     bad = []
     out['evals'] += 3; out['compared'] += 1
-    _, err = call(ru.assign_bond_types, atoms, t2, exclude=ex)
-    if err:
-        return [('typing-exc', 'assign_bond_types raised %r' % (err[0],))]
-    _, err = call(ru.assign_angle_types, atoms, t2, exclude=ex)
-    if err:
-        return [('typing-exc', 'assign_angle_types raised %r' % (err[0],))]
-    _, err = call(ru.assign_dihedral_types, atoms, t2, exclude=ex)
+    ex0 = None if ex is None else set(ex)
+    fns = [ru.assign_bond_types, ru.assign_angle_types, ru.assign_dihedral_types]
+    for oi in order:            # ONE exclusion set object for all three calls, in the given order
+        _, e = call(fns[oi], atoms, t2, exclude=ex)
+        if oi == 2:
+            err = e
+        elif e:
+            return [('typing-exc', '%s raised %r' % (fns[oi].__name__, e[0]))]
+    if ex0 is not None and ex != ex0:
+        bad.append(('exclusion-set-modified', 'the assign_*_types calls (order %r) changed the exclusion set they were given: %r -> %r' % ([fns[o].__name__ for o in order], sorted(ex0), sorted(ex))))
     if unsupported:
         if not err:
             bad.append(('dihedral-unsupported', 'a torsion without a defined UFF case was typed instead of being refused'))
@@ -259,6 +263,59 @@ def large_case(i):
 def run(sc, ctx):
     out = dict(evals=0, compared=0, violations=[], outcomes={}, states=0, nontrivial=0)
     oc = out['outcomes']
+    if sc['kind'] == 'history':
+        import itertools as _it
+        if sc['h'] == 0:
+            # one exclusion set object through all three typing calls, in every call order, on a structure with small excluded fragments
+            edges = [(0, 1), (1, 2), (2, 3), (1, 4), (5, 6), (6, 7), (8, 9), (10, 11), (11, 12), (12, 13)]
+            types = ['H_', 'C_3', 'C_3', 'H_', 'H_', 'H_', 'O_3', 'H_', 'C_3', 'O_3', 'N_3', 'C_3', 'C_3', 'O_3']; n = 14
+            for ex in ([5, 6, 7], [8, 9], [5, 6, 7, 8, 9], [0, 1, 2, 3], [0, 1, 2, 3, 5, 6, 7, 8, 9], [10, 11, 12, 13, 8, 9], list(range(14)), [4, 5, 6, 7]):
+                for order in _it.permutations(range(3)):
+                    for pres in (0, 1):
+                        bad = run_typing(n, edges, types, ex, pres, list(range(n)), sc, out, order=order)
+                        out['states'] += 1
+                        for clause, msg in bad[:2]:
+                            out['violations'].append(viol('typing', 'history:' + clause, 'typing calls in the order %r with one exclusion set object %r: %s' % (order, ex, msg[:500]), sc))
+            oc['one exclusion set, every call order'] = 1; out['nontrivial'] += 1
+        elif sc['h'] == 1:
+            # a bond list object that is enumerated, edited in place and enumerated again (list and array)
+            for n, e0, edits in ((6, [(0, 1), (1, 2), (2, 3)], [('append', (3, 4)), ('append', (4, 5)), ('set', 0, (5, 1)), ('append', (0, 3))]),
+                                 (5, [(0, 1), (1, 2), (2, 3), (3, 4)], [('set', 3, (1, 4)), ('set', 0, (3, 0)), ('pop', 1)]),
+                                 (7, [(0, 1), (0, 2), (0, 3)], [('append', (3, 4)), ('set', 1, (4, 5)), ('append', (5, 6)), ('pop', 0)])):
+                for container in ('list', 'array'):
+                    bl = [tuple(x) for x in e0]
+                    arr = np.array(bl) if container == 'array' else bl
+                    for step in range(len(edits) + 1):
+                        cur = [tuple(int(v) for v in row) for row in (arr.tolist() if container == 'array' else arr)]
+                        ea, ed = ref_terms(n, cur)
+                        ga, err = call(ru.calc_angles, arr); gd, err2 = call(ru.calc_dihedrals, arr)
+                        out['evals'] += 2; out['compared'] += 1; out['states'] += 1
+                        if err or err2:
+                            out['violations'].append(viol('enumeration', 'history-exc', 'calc_angles / calc_dihedrals raised %r' % ((err or err2)[0],), sc)); break
+                        if sorted(canon(tuple(int(v) for v in t)) for t in ga) != ea or sorted(canon(tuple(int(v) for v in t)) for t in gd) != ed:
+                            out['violations'].append(viol('enumeration', 'history:edited-bond-list', 'bond %s edited in place %d time(s), now %r: angles %r (expected %r), dihedrals %r (expected %r)' % (
+                                container, step, cur, sorted(canon(tuple(int(v) for v in t)) for t in ga), ea, sorted(canon(tuple(int(v) for v in t)) for t in gd), ed), sc)); break
+                        if step < len(edits):
+                            ed_ = edits[step]
+                            if container == 'array' and ed_[0] != 'set':
+                                continue        # arrays are edited element-wise only
+                            if ed_[0] == 'append':
+                                arr.append(ed_[1])
+                            elif ed_[0] == 'set':
+                                arr[ed_[1]] = ed_[2]
+                            else:
+                                arr.pop(ed_[1])
+            oc['bond list edited in place'] = 1; out['nontrivial'] += 1
+        else:
+            # typing the same Atoms object twice, and two structures one after the other with the same type list object
+            n, edges, types, ex = 6, [(0, 1), (1, 2), (2, 3), (3, 4), (4, 5)], ['H_', 'C_3', 'C_2', 'C_2', 'O_3', 'H_'], None
+            for rep in range(3):
+                bad = run_typing(n, edges, types, ex, rep % 2, list(range(n)), sc, out)
+                out['states'] += 1
+                for clause, msg in bad[:2]:
+                    out['violations'].append(viol('typing', 'history:' + clause, 'typing call %d of 3 in one process on equal structures: %s' % (rep + 1, msg[:500]), sc))
+            oc['typing repeated'] = 1; out['nontrivial'] += 1
+        return out
     if sc['kind'] == 'large':
         n, edges, types, ex = large_case(sc['case'])
         for pres in (0, 1):
